@@ -181,7 +181,8 @@ def well_formed_for_eval(dump):
 
 def oracle_c01(dump, max_inputs=8):
     """every entry point returns the reference value, on all total assignments"""
-    if not well_formed_for_eval(dump):
+    from . import semoracle
+    if not well_formed_for_eval(dump) or not semoracle.acyclic(dump):
         return None
     c = ct.build_circuit(dump)
     ins = list(c._inputs)
@@ -229,7 +230,8 @@ def oracle_c01(dump, max_inputs=8):
 
 def oracle_c15(dump, max_inputs=5):
     """partial assignments: defined values are stable under completion; total => defined"""
-    if not well_formed_for_eval(dump):
+    from . import semoracle
+    if not well_formed_for_eval(dump) or not semoracle.acyclic(dump):
         return None
     from cirbo.core.circuit.operators import Undefined
     c = ct.build_circuit(dump)
